@@ -216,6 +216,8 @@ def run(ctx):
                  (["mtseq", P, s, 2000], "sequencer_node fed shuffled tags by 1-4 threads: exactly 0..n-1 in order; duplicates refused"),
                  (["mtlimiter", P, s, 2000], "limiter_node with decrementer: never more than threshold bodies in flight, nothing lost"),
                  (["mtjoin", P, s, 1500, r % 3], "join_node (queueing/reserving/key_matching by turns) fed by two threads: only matching complete tuples")]
+    runs += [(["simplenodes", [2, 4, 8][j % 3], ctx.seed * 10 + j, 40], "overwrite_node / write_once_node (latest / first value to present and future successors, clear), broadcast_node (1-3 putting threads, "
+              "1-4 successors: all, per producer in order), split_node and indexer_node (every element / tagged message to the matching port)") for j in range(ctx.scale(2, 12))]
     runs += [(["limdec", 2, ctx.seed, 0], "limiter_node<int,int> with thresholds 1-6, 0..threshold messages outstanding, integral decrements 1..threshold+1 sent from inside the put, by a second thread "
                                        "during the put, or between puts: forwarded minus ALL requested decrements never exceeds the threshold"),
              (["limdec", 4, ctx.seed + 1, 0], "limiter_node<int,int> integral decrements (as above)")]
